@@ -25,24 +25,24 @@ Proof.
   vm_compute. discriminate.
 Qed.
 
-(* Parameter.create never looks at NaN bounds: accepted, yet init is not within the bounds *)
-Theorem param_nan_bound_refuted :
-  exists n i l u f p,
-    g_bounds_not_nan l u = false /\ param_create n i l u f = Some p /\ param_wf p = false.
-Proof.
-  exists 1%positive, (XFin 1), (Some XNaN), None, false, (mkparam 1%positive (XFin 1) XNaN XPosInf false).
-  repeat split; vm_compute; reflexivity.
-Qed.
+(* REPAIRED in /repo caae827 (regression example): Parameter.create('x', 1.0, lower=nan) used to be accepted with
+   init outside the bounds; NaN bounds are refused now *)
+Example param_nan_bound_fixed :
+  g_bounds_not_nan (Some XNaN) None = false /\
+  param_create 1%positive (XFin 1) (Some XNaN) None false = None /\
+  param_create 1%positive (XFin 1) None (Some XNaN) false = None /\
+  param_replace (mkparam 1%positive (XFin 1) (XFin 0) (XFin 2) false) None None None (Some XNaN) None = None.
+Proof. repeat split; vm_compute; reflexivity. Qed.
 
-(* RandomVariables.create(dist) with a single distribution skips the uniqueness loop *)
-Theorem rvs_single_refuted :
-  exists d r, rvs_create_single d = Some r /\ rvs_wf r = false.
-Proof. exists [1%positive; 1%positive], [[1%positive; 1%positive]]. split; vm_compute; reflexivity. Qed.
-
-(* RandomVariables + Distribution does not check the names *)
-Theorem rvs_add_refuted :
-  exists r d, rvs_wf r = true /\ g_fresh_names r d = false /\ rvs_wf (rvs_add r d) = false.
-Proof. exists [[1%positive]], [1%positive]. repeat split; vm_compute; reflexivity. Qed.
+(* REPAIRED in /repo 1b723c6 (regression examples): create(single distribution) and rvs + dist run the uniqueness
+   loop now *)
+Example rvs_single_fixed :
+  rvs_create_single [1%positive; 1%positive] = None /\ rvs_create_single [1%positive; 2%positive] = Some [[1%positive; 2%positive]].
+Proof. split; vm_compute; reflexivity. Qed.
+Example rvs_add_fixed :
+  rvs_wf [[1%positive]] = true /\ g_fresh_names [[1%positive]] [1%positive] = false /\
+  rvs_add [[1%positive]] [1%positive] = None /\ rvs_add [[1%positive]] [2%positive] = Some [[1%positive]; [2%positive]].
+Proof. repeat split; vm_compute; reflexivity. Qed.
 
 (* Model.replace(datainfo=...) does not look at the statements again: drop_columns(model, ['WGT']) returns a model
    whose statements still use WGT.  Symbols: 1 THETA, 3 WGT, 4 t, 5 NaN, 10 CL *)
@@ -67,12 +67,17 @@ Proof.
   exists (fun x => x), (mkcobj nat 1 None), 2. repeat split; try (vm_compute; reflexivity). vm_compute. discriminate.
 Qed.
 
-(* frozenmapping: == is Mapping.__eq__ (the items as an unordered dict), __hash__ hashes the tuple of the items in
-   insertion order.  Term (1, 2) = items unordered, (1, 3) = items in order. *)
-Definition frozenmapping_class : eqclass := mkclass [(1%positive, 2)] [(1%positive, 3)].
-Theorem frozenmapping_hash_order_refuted :
-  exists a b : obj, cls_eq frozenmapping_class a b = true /\ cls_hkey frozenmapping_class a <> cls_hkey frozenmapping_class b.
-Proof. apply (cls_inconsistent_refuted frozenmapping_class (1%positive, 3)). vm_compute. left. reflexivity. Qed.
+(* frozenmapping — REPAIRED in /repo e8b6237 (regression examples): == is Mapping.__eq__ (the items as an unordered
+   dict); __hash__ used to hash the tuple of the items in insertion order (term (1, 3)), now the frozenset of the
+   items (term (1, 2)). *)
+Definition frozenmapping_class_before_fix : eqclass := mkclass [(1%positive, 2)] [(1%positive, 3)].
+Definition frozenmapping_class : eqclass := mkclass [(1%positive, 2)] [(1%positive, 2)].
+Example frozenmapping_hash_order_fixed :
+  cls_consistent frozenmapping_class = true /\ hashed_not_compared frozenmapping_class_before_fix = [(1%positive, 3)].
+Proof. split; vm_compute; reflexivity. Qed.
+Example frozenmapping_eq_hash_consistent :
+  forall a b : obj, cls_eq frozenmapping_class a b = true -> cls_hkey frozenmapping_class a = cls_hkey frozenmapping_class b.
+Proof. intros a b. apply cls_eq_hash. vm_compute. reflexivity. Qed.
 
 (* ---- eq / hash: the term tables of the classes whose __hash__ hashes (or hashed) a term __eq__ does not compare.
    Field numbers are arbitrary labels; how = 0 raw attribute, 1 attribute seen through a function. *)
@@ -93,13 +98,20 @@ Example cs_eq_hash_consistent :
   forall a b : obj, cls_eq cs_class a b = true -> cls_hkey cs_class a = cls_hkey cs_class b.
 Proof. intros a b. apply cls_eq_hash. vm_compute. reflexivity. Qed.
 
-(* ColumnInfo: == ignores _descriptor, __hash__ includes it *)
-Definition colinfo_class : eqclass :=
+(* ColumnInfo — REPAIRED in /repo d301152 (regression examples): == used to ignore _descriptor (term 9) which
+   __hash__ includes; == compares it now *)
+Definition colinfo_class_before_fix : eqclass :=
   mkclass [(1%positive,0); (2%positive,0); (3%positive,0); (4%positive,0); (5%positive,0); (6%positive,0); (7%positive,0); (8%positive,0)]
           [(1%positive,0); (2%positive,0); (3%positive,0); (4%positive,0); (5%positive,0); (7%positive,0); (8%positive,0); (9%positive,0)].
-Theorem colinfo_hash_refuted :
-  exists a b : obj, cls_eq colinfo_class a b = true /\ cls_hkey colinfo_class a <> cls_hkey colinfo_class b.
-Proof. apply (cls_inconsistent_refuted colinfo_class (9%positive, 0)). vm_compute. left. reflexivity. Qed.
+Definition colinfo_class : eqclass :=
+  mkclass [(1%positive,0); (2%positive,0); (3%positive,0); (4%positive,0); (5%positive,0); (6%positive,0); (7%positive,0); (8%positive,0); (9%positive,0)]
+          [(1%positive,0); (2%positive,0); (3%positive,0); (4%positive,0); (5%positive,0); (7%positive,0); (8%positive,0); (9%positive,0)].
+Example colinfo_hash_fixed :
+  cls_consistent colinfo_class = true /\ hashed_not_compared colinfo_class_before_fix = [(9%positive, 0)].
+Proof. split; vm_compute; reflexivity. Qed.
+Example colinfo_eq_hash_consistent :
+  forall a b : obj, cls_eq colinfo_class a b = true -> cls_hkey colinfo_class a = cls_hkey colinfo_class b.
+Proof. intros a b. apply cls_eq_hash. vm_compute. reflexivity. Qed.
 
 (* Model: == does not look at the dataset, __hash__ includes hash_df_runtime(_dataset) *)
 Definition model_class : eqclass :=
